@@ -1,0 +1,17 @@
+//go:build verif
+
+package mlog
+
+import (
+	"io"
+
+	"github.com/rs/zerolog"
+)
+
+// VerifDiscard makes the package logger write to io.Discard at trace level: every log statement of the program
+// still builds its event (all the MarshalZerologObject / readable-name code runs), nothing is printed.
+// Call it before the loggers of a router are derived from L().
+func VerifDiscard() {
+	l = zerolog.New(io.Discard).With().Timestamp().Logger()
+	zerolog.SetGlobalLevel(zerolog.TraceLevel)
+}
